@@ -143,9 +143,29 @@ def build_layered_plain(pair):
     return c
 
 
+NEAR = ["$\"HOME/bin", "$\"{a}.{b}", "$\"label", "$\"", "$\"\"", "$\"x\"y", "x$\"{a}\"", " $\"{a}\"", "$env", "$env:", "$merge", "$replace", "$repeat:",
+        "$Merge:a", "$MERGE:a", "$ merge:a", "$\"{a}\" ", "$'{a}'", "${a}", "$\"{a", "{a}", "$$", "$", "$output:true", "$delete ", " $delete", "$required "]
+
+
+def near_case(rng):
+    """undoubled strings one character away from a directive, as values and as keys: the model is the judge"""
+    d = {"a": "A", "b": 2}
+    for _ in range(rng.randint(1, 4)):
+        s_ = rng.choice(NEAR)
+        if rng.random() < 0.6:
+            d[rng.choice(["v1", "v2", "v3"])] = s_ if rng.random() < 0.7 else [s_, {"k": s_}]
+        else:
+            d[s_] = rng.choice([1, "x", {"n": 1}])
+    c = chain_case([d] if rng.random() < 0.7 else [{"z": 1}, d], env=gen.ENV)
+    c["noshrink"] = False
+    return c
+
+
 def gen_case(rng):
     r = rng.random()
-    if r < 0.12:
+    if r < 0.08:
+        return near_case(rng)
+    if r < 0.2:
         # (d) doubled child over a parent of PLAIN data that may itself contain single dollars ($FOO, ${X}, a$b)
         parent = {rand_string(rng, PLAIN): alpha_tree(rng, PLAIN, 2) for _ in range(rng.randint(1, 4))}
         if not is_plain(parent):
